@@ -23,16 +23,7 @@ func init() {
 			if !n.IsConst() || n.V == 0 {
 				e.cut("verifChoice: bound must be a positive constant")
 			}
-			e.choices++
-			if n.V == 1 {
-				// keep the vector aligned with the native API (which consumes one value)
-				v := e.freshVar(64, "c")
-				e.assume(Eq(v, Const(64, 0)))
-				return Const(64, 0)
-			}
-			v := e.freshVar(64, "c")
-			e.assume(Bin(OUlt, v, n))
-			return Const(64, e.concretize(v, 4096))
+			return Const(64, e.choose(n.V))
 		},
 		pp + "verifAssume": func(e *Exec, a []Value) Value { e.assume(a[0].(*Term)); return nil },
 		pp + "verifAssert": func(e *Exec, a []Value) Value {
